@@ -13,7 +13,7 @@ Events == [op : {"tx"}, t : Txs, prov : {"ok", "fail"}, ok : BOOLEAN, ret : Txs]
    \cup   [op : {"raw"}, t : Txs, prov : {"ok", "fail"}, ok : BOOLEAN, ret : Txs]
    \cup   [op : {"block"}, page : Pages, limit : Limits, parse : BOOLEAN, prov : {"ok", "fail"}, ok : BOOLEAN,
            ret : {PageSeq(p, l) : p \in Pages, l \in Limits}]
-   \cup   [op : {"txs"}, a : {"a1"}, full : {<< <<"t", 1>>, <<"t", 2>> >>}, prov : {"ok", "fail"}, ok : BOOLEAN,
+   \cup   [op : {"txs"}, after : {0}, a : {"a1"}, full : {<< <<"t", 1>>, <<"t", 2>> >>}, prov : {"ok", "fail"}, ok : BOOLEAN,
            ret : {<< <<"t", 1>>, <<"t", 2>> >>, << <<"t", 1>> >>}]
    \cup   [op : {"fee"}, g : Groups, prov : {"ok", "fail"}, pval : FeeVals, ok : BOOLEAN, ret : FeeVals]
    \cup   [op : {"utxos"}, a : {"a1", "a2"}, full : {UFull}, prov : {"ok", "fail"}, ok : BOOLEAN, ret : {UFull, << <<"h", 1>> >>}]
